@@ -123,6 +123,20 @@ class PyModule:
     def loc(self, node):
         return '%s:%d' % (self.rel, getattr(node, 'lineno', 0))
 
+    def const_node(self, name, depth=0):
+        """(module, value node) of a module-level constant, following `from .sibling import NAME` one module at a time"""
+        if name in self.consts:
+            return self, self.consts[name]
+        org = self.imports.get(name)
+        if isinstance(org, str) and '.' in org and depth < 3:
+            modn, _, attr = org.rpartition('.')
+            here = os.path.dirname(self.rel)
+            for base in (here, os.path.dirname(here), ''):
+                rel = os.path.join(base, modn.replace('.', '/') + '.py')
+                if os.path.exists(os.path.join(self.cfg.repo, rel)):
+                    return load(self.cfg, rel).const_node(attr, depth + 1)
+        return None
+
     def table_elems(self, name):
         """IR element expressions of a module-level constant tuple / list (for unrolling `for x in TABLE`), else None"""
         v = self.consts.get(name)
